@@ -29,7 +29,13 @@ def observe(cfg, origin=0, variant=0):
     tagf, tagm = "c07f", "c07m"
     stubs.reset(tagf)
     stubs.reset(tagm)
-    idx = pd.RangeIndex(origin, origin + n) if variant % 2 == 0 else pd.Index(np.arange(origin, origin + n))
+    # every fourth run: time points two apart (labels, not positions, are what forecasters are asked for)
+    stride = 2 if variant % 4 == 3 else 1
+    idx = pd.RangeIndex(origin, origin + stride * n, stride) if variant % 2 == 0 else \
+        pd.Index(np.arange(origin, origin + stride * n, stride))
+
+    def T(i):
+        return (int(i) - origin) // stride if (int(i) - origin) % stride == 0 else -9
     y = pd.Series([1000.0 + t for t in range(n)], index=idx)
     X = pd.DataFrame({"x": [3000.0 + t for t in range(n)]}, index=idx) if cfg["nx"] else None
     F = stubs.make_recording_forecaster()
@@ -54,17 +60,17 @@ def observe(cfg, origin=0, variant=0):
     mi = 0
     for e in fev:
         if e["ev"] in ("fit", "update"):
-            ok = e["values"] == [1000.0 + (i - origin) for i in e["index"]]
+            ok = e["values"] == [1000.0 + T(i) for i in e["index"]]
             xok = (e["x"] is None and not cfg["nx"]) or (e["x"] == e["index"])
-            events.append({"ev": e["ev"], "times": [i - origin for i in e["index"]] if ok and xok else [-9],
-                           "fh": [i - origin for i in e["fh"]] if e.get("fh") else [], "xtimes": [], "a": [], "b": [],
+            events.append({"ev": e["ev"], "times": [T(i) for i in e["index"]] if ok and xok else [-9],
+                           "fh": [T(i) for i in e["fh"]] if e.get("fh") else [], "xtimes": [], "a": [], "b": [],
                            "upd": bool(e.get("upd", False))})
             if e["ev"] == "fit" and e.get("fh_rel"):
                 # a relative horizon would be relative to the cutoff: normalise to absolute times
-                events[-1]["fh"] = [e["index"][-1] - origin + h for h in e["fh"]]
+                events[-1]["fh"] = [T(e["index"][-1] + h) for h in e["fh"]]
         elif e["ev"] == "predict":
-            events.append({"ev": "predict", "times": [], "fh": [i - origin for i in e["fh"]],
-                           "xtimes": [i - origin for i in e["x"]] if e["x"] is not None else [], "a": [], "b": [],
+            events.append({"ev": "predict", "times": [], "fh": [T(i) for i in e["fh"]],
+                           "xtimes": [T(i) for i in e["x"]] if e["x"] is not None else [], "a": [], "b": [],
                            "upd": False})
             if mi < len(mev):
                 m = mev[mi]
@@ -73,7 +79,7 @@ def observe(cfg, origin=0, variant=0):
                                "a": [iround(v) for v in m["a"]], "b": [iround(v) for v in m["b"]]})
     rows = []
     for _, r in res.iterrows():
-        rows.append({"score": iround(r["test_Rec"]), "cutoff": iround(r["cutoff"]) - origin,
+        rows.append({"score": iround(r["test_Rec"]), "cutoff": T(iround(r["cutoff"])),
                      "len": int(r["len_train_window"])})
     o = {"rej": False, "events": events, "rows": rows}
     if mi != len(mev):
@@ -125,6 +131,8 @@ def honest(ctx, cfg, origin):
             if bad:
                 break
             continue
+        # scoring omitted: the documented default is the symmetric mean absolute percentage error
+        res0 = evaluate(mk(), make_cv(s), y, strategy=cfg["cfg"]["strategy"]) if name == "naive_mean" else None
         for k, (train, test) in enumerate(folds):
             ytr, yte = y.iloc[train], y.iloc[test]
             try:
@@ -138,6 +146,12 @@ def honest(ctx, cfg, origin):
                 break
             from sktime.forecasting.base import ForecastingHorizon
             pred = f.predict(ForecastingHorizon(yte.index, is_relative=False))
+            if res0 is not None:
+                smape = float(np.mean(2 * np.abs(yte.values - pred.values) / (np.abs(yte.values) + np.abs(pred.values))))
+                got0 = float(res0.iloc[k][[c for c in res0.columns if c.startswith("test_")][0]])
+                if abs(smape - got0) > 1e-9 * max(1, abs(smape)):
+                    bad = "%s fold %d: evaluate without scoring reports %s, the default metric sMAPE(y_true, y_pred) is %s" % (name, k, got0, smape)
+                    break
             want = metric(yte, pred)
             got = res.iloc[k]["test_" + metric.name]
             if abs(want - got) > 1e-9 * max(1, abs(want)) or int(res.iloc[k]["cutoff"]) != int(ytr.index[-1]) \
